@@ -1,5 +1,6 @@
 import Umya.Driver.C10
 import Umya.Model.Book
+import Umya.Model.SheetA
 namespace Umya.Driver.C07
 open Umya.Sheet Umya.Book Umya.Coord
 open Umya.Driver.C10 (joinWith nat? int? optNat?)
@@ -15,7 +16,9 @@ def dumpSheet (w : WSheet) : String :=
   let cm := joinWith "," (w.comments.map (fun c => s!"{c.col}.{c.row}.{c.id}"))
   let cf := joinWith "," (w.cfs.map (fun f => s!"{f.id}:{joinWith "+" (f.ranges.map rangeText)}"))
   let af := match w.filter with | some ρ => rangeText ρ | none => "-"
-  s!"{Umya.Driver.C10.dump w.grid};m={m};cm={cm};cf={cf};af={af}"
+  -- the cell dump shows the value tokens (hyperlink tokens stripped); `hl` lists row.col.hyperlink of every cell that has one
+  let hl := joinWith "," ((linksOf w.grid).map (fun t => s!"{t.1}.{t.2.1}.{t.2.2}"))
+  s!"{Umya.Driver.C10.dump (stripLinks w.grid)};m={m};cm={cm};cf={cf};af={af};hl={hl}"
 
 def dumpBook (b : Book) : String := joinWith " | " (b.sheets.map dumpSheet)
 
@@ -57,6 +60,33 @@ def handle (st : St) (args : List String) : St × String :=
       match b.sheets[i]? with
       | none => (st, "bad-op")
       | some w =>
+        -- operations that involve the hyperlink or the whole worksheet record (`Model/SheetA.lean`)
+        let special : Option (Res WSheet) := match rest with
+          | ["setval", c, r, v] => match nat? c, nat? r, nat? v with
+            | some c, some r, some v => some (.ok { w with grid := setValH w.grid c r v })
+            | _, _, _ => none
+          | ["setcellh", c, r, v, sy, h] => match parseNats [c, r, v, sy, h] with
+            | some [c, r, v, sy, h] => some (.ok { w with grid := setCellH w.grid c r v sy h })
+            | _ => none
+          | [mv, rs, re, cs, ce, dr, dc] =>
+            if mv = "move" ∨ mv = "copy" then
+              match nat? rs, nat? re, nat? cs, nat? ce, int? dr, int? dc with
+              | some rs, some re, some cs, some ce, some dr, some dc => some (wsMoveOrCopy w rs re cs ce dr dc (mv = "move"))
+              | _, _, _, _, _, _ => none
+            else none
+          | _ => none
+        -- an inverted rectangle on a store without cells: `BTreeSet::range` with start > end panics only when the tree has a
+        -- root node (an index emptied by `remove_cell`), not on a fresh one (after `rebuild_map_and_indices`): that
+        -- allocation state is below the model, whose `coordsInRange` says panic; such a request is not compared
+        let invertedOnEmpty : Bool := w.grid.rowIdx.isEmpty && (match rest with
+          | [mv, rs, re, cs, ce, _, _] => (mv = "move" || mv = "copy") && (match nat? rs, nat? re, nat? cs, nat? ce with
+            | some rs, some re, some cs, some ce => keyLt (re, ce) (rs, cs)
+            | _, _, _, _ => false)
+          | _ => false)
+        if invertedOnEmpty then ({ st with dead := true }, "unmodelled") else
+        match special with
+        | some r => mutate st (onSheet b i (fun _ => r))
+        | none =>
         let (s10, reply) := Umya.Driver.C10.handle { sheet := w.grid } rest
         if reply = "panic" then ({ st with dead := true }, "panic")
         else if reply.startsWith "ok" then
